@@ -13,7 +13,7 @@ KNOWN_FILE = os.path.join(VERIF, 'KNOWN_FINDINGS.txt')
 ENV = dict(os.environ, CARGO_NET_OFFLINE='true', CARGO_TERM_COLOR='never')
 
 QUICK_CAP = 900
-THOROUGH_CAP = 3600
+THOROUGH_CAP = 9000   # 2.5x the slowest admitted family (measured <= 2300 s here): the reference machine is ~2.5x slower
 
 
 def log(*a):
@@ -467,7 +467,12 @@ def write_evidence(pid, tier, seed, fams, results, smt_results, skipped, violati
     passed = [r for r in results if r['status'] == 'pass']
     nontrivial = [r for r in passed if r.get('covers') and all(v for d, v in r['covers'].items() if not d.startswith('MUSTNOT'))]
     queries = sum(r['parsed']['total'] for r in results) + sum(r.get('queries', 1) for r in smt_results)
-    discharged = sum(r['parsed']['total'] - r['parsed']['failed'] for r in passed) + sum(r.get('queries', 1) for r in smt_results if r['status'] == 'pass')
+    # a vacuity twin / should-panic harness that behaved as required has met its obligation: its
+    # required failure is counted as discharged, not as an open check
+    def done(r):
+        exp = famidx.get(r.get('family'), {}).get('expect')
+        return r['parsed']['total'] if exp in ('fail', 'panic') else r['parsed']['total'] - r['parsed']['failed']
+    discharged = sum(done(r) for r in passed) + sum(r.get('queries', 1) for r in smt_results if r['status'] == 'pass')
     samples = []
     # concrete witnesses produced by the solver for the class covers (one per harness), the
     # informative class witnesses first, the END reachability witnesses last
